@@ -94,7 +94,10 @@ pub fn replay_regressions(
                 "KNOWN-FINDING: property={} {}",
                 f.property, f.what
             )),
-            ("known", None) => {}
+            ("known", None) => eprintln!(
+                "note: the witness of known finding {} ({}) does not fail any more; if the defect is gone, turn the entry into a fixed one, otherwise refresh the witness",
+                f.signature, full
+            ),
             (_, Some(v)) => report.violations.push((full, v)),
             (_, None) => {}
         }
